@@ -1458,6 +1458,7 @@ class C10(Machine):
         plan["meta"].update({"kind": kind, "roles": roles, "enabled": sorted(k for k in fk if fk[k]),
                              "steer": list(steer) if steer else None})
         plan["fp"] = [o] + ([sib.obj] if sib else [])
+        plan["recheck_results"] = True
         return plan
 
     # -----------------------------------------------------------------------------------------
@@ -1549,6 +1550,14 @@ class C10(Machine):
             where = out[1] if out[0] == "interrupted" and len(out) > 1 else None
             hist_obj.append((tag, s.get("cls"), out[0], fk, where, s.get("c")))
             prev_any.append((kind, oi))
+        fin = by_id.get(-1)
+        if fin and fin.get("changed"):
+            for sid in fin["changed"]:
+                stp = [s for s in plan["steps"] if s["id"] == sid]
+                if stp and stp[0].get("cls") == CHK:
+                    vs.append(vio("returned_value_changed_later", stp[0].get("kind", "?"), stp[0].get("tag", "?"), sid,
+                                  {"steps_whose_result_changed": fin["changed"][:5]}))
+                    break
         if plan["meta"].get("shared"):
             probe("runs_with_object_shared_by_clients")
         if plan["meta"].get("twin"):
